@@ -22,6 +22,8 @@ type Gen struct {
 	fset    *token.FileSet
 	srcLine map[string][]string
 	genFile map[string]bool
+	repo    string // repository root the packages were loaded from
+	guardMemo map[*ssa.Function][]guardUse
 }
 
 type Closure struct {
